@@ -78,7 +78,7 @@ enum HookKind { K_PLAIN = 0, K_ATOMIC, K_SYNC, K_YIELD };
 
 struct StoreRec {
 	uint64_t val, step;
-	uint32_t clk; uint8_t task; bool has_rel;
+	uint32_t clk; uint8_t task; bool has_rel; bool is_sc;
 	VC rel;
 };
 struct Loc {
@@ -514,7 +514,7 @@ static Loc &get_loc(void *addr, int size) {
 	if (it != r.locs.end()) r.locs.erase(it);
 	Loc &L = r.locs[o];
 	L.size = size;
-	StoreRec s{}; s.val = mem_get(addr, size); s.step = 0; s.clk = 0; s.task = 0; s.has_rel = false;
+	StoreRec s{}; s.val = mem_get(addr, size); s.step = 0; s.clk = 0; s.task = 0; s.has_rel = false; s.is_sc = true;
 	L.hist.push_back(s);
 	return L;
 }
@@ -538,7 +538,7 @@ static void append_store(void *addr, Loc &L, uint64_t val, int mo, bool rmw, con
 	Task &t = r.tasks[me];
 	StoreRec s{};
 	s.val = val; s.step = r.steps; s.task = (uint8_t)me; s.clk = t.clk.c[me];
-	s.has_rel = false; s.rel.clear();
+	s.has_rel = false; s.rel.clear(); s.is_sc = mo == 5;
 	const StoreRec &last = L.hist.back();
 	if (rmw && prev_for_rmw && prev_for_rmw->has_rel) { s.has_rel = true; s.rel = prev_for_rmw->rel; }
 	// (C++20: only read-modify-writes continue a release sequence; a later plain store of the releasing thread no longer
@@ -564,10 +564,18 @@ static size_t choose_visible(Loc &L, int mo, Task &t, int me) {
 	Run &r = *R;
 	size_t newest = L.hist.size() - 1;
 	uint32_t ak = t.ak++;
-	if (r.plan->mem == MEM_SC || mo == 5 || r.fair || newest == 0) { L.floor[me] = L.first + newest; return newest; }
+	if (r.plan->mem == MEM_SC || r.fair || newest == 0) { L.floor[me] = L.first + newest; return newest; }
+	// A seq_cst load must observe the latest seq_cst store that precedes it (or something later), but a store that is
+	// NOT seq_cst and does not happen-before the load may still be missed: only the pairing of seq_cst loads with
+	// seq_cst stores rules out stale reads.
+	size_t sc_lo = 0; bool any_nonsc_after = false;
+	if (mo == 5) {
+		for (size_t i = newest + 1; i-- > 0;) { if (L.hist[i].is_sc || L.hist[i].task == 0) { sc_lo = i; break; } any_nonsc_after = true; }
+		if (!any_nonsc_after) { L.floor[me] = L.first + newest; return newest; }
+	}
 	// lower bound
-	size_t lo = 0;
-	if (L.floor[me] > L.first) lo = (size_t)(L.floor[me] - L.first);
+	size_t lo = sc_lo;
+	if (L.floor[me] > L.first && (size_t)(L.floor[me] - L.first) > lo) lo = (size_t)(L.floor[me] - L.first);
 	for (size_t i = newest; i > lo; i--) { const StoreRec &s = L.hist[i]; if (t.clk.c[s.task] >= s.clk + (s.task == 0 ? 0 : 1) || s.task == me) { lo = i; break; } }
 	// a store overwritten more than `window` steps ago is no longer readable
 	for (size_t i = newest; i > lo; i--) if (L.hist[i].step + (uint64_t)r.plan->window <= r.steps) { lo = i; break; }
